@@ -142,7 +142,15 @@ const topKey = 495
 
 func (ke keyEmbedding) idx(k int) int {
 	if k == topKey {
-		return ke.Top
+		panic("idx(topKey) needs the mapping: use idxFor")
+	}
+	return ke.Base + k*ke.Stride
+}
+
+// idxFor also resolves the model key TopKey (bin of MaxIndexableValue of THAT mapping)
+func (ke keyEmbedding) idxFor(c *concretizer, k int) int {
+	if k == topKey {
+		return c.m.Index(c.m.MaxIndexableValue())
 	}
 	return ke.Base + k*ke.Stride
 }
